@@ -49,7 +49,7 @@ def _analyse_classes(root, classes, budget_s=600):
                              f'no pass rejects a statement the language '
                              f'rules forbid ({sc.label})', None)
                 continue
-            if not ok:
+            if not ok or getattr(sc, 'admission_only', False):
                 continue
             # children are checked by their own handlers
             ok = _children_admissible(sim, sc)
@@ -77,6 +77,10 @@ def _analyse_classes(root, classes, budget_s=600):
                             opn, tys = sc.label.split(':', 1)
                             rel.setdefault(('operand-types', tys), {})[
                                 opn] = (ft, sc)
+            if cls == 'RestoreStmt':
+                rel.setdefault(('restore',), {})[sc.label] = (
+                    sorted(repr(_canon_seq(o[1]))
+                           for c, o in per_flag[False] if o[0] == 'ok'), sc)
             if cls == 'InputStmt':
                 rel.setdefault(sc.label.split(' prompt=')[0], []).append(
                     (sc, sorted(repr(_mask_literals(o[1]))
@@ -86,6 +90,20 @@ def _analyse_classes(root, classes, budget_s=600):
                 res['unmodelled'].append((cls, 'time budget exhausted'))
                 break
         for key, group in sorted(rel.items(), key=repr):
+            if key == ('restore',):
+                # RESTORE <line 0> is a RESTORE with a target: it must
+                # compile like RESTORE <line 10>, not like plain RESTORE
+                a = group.get('lineno0')
+                b = group.get('lineno10')
+                p0 = group.get('plain')
+                if a and b and p0 and a[0] != b[0] and a[0] == p0[0]:
+                    _problem(res, 'restore-target-zero', g, cls, a[1],
+                             'RESTORE 0 compiles to the code of a RESTORE '
+                             'without target (line number 0 is treated as '
+                             '"no target"): it rewinds to the first DATA '
+                             'of the program instead of the DATA at line 0',
+                             None)
+                continue
             if isinstance(key, tuple) and key[0] == 'operand-types':
                 # a comparison brings its operands to the same common type
                 # as arithmetic on them does
@@ -548,6 +566,14 @@ def report(ctx, pid, kinds, rule_suffix, rule_text):
             continue
         # group by generator + kind + normalised detail head
         head = _detail_head(p['detail'], p['kind'])
+        # scenarios of one generator whose label starts with a statement
+        # form (`do_until DOUBLE body=0`) are different constructs: keep
+        # them apart, so that a known finding for one form does not hide
+        # a new one for another
+        lab = str(p['scenario']).split()
+        if len(lab) >= 2 and lab[0].isidentifier() and '_' in lab[0] and \
+                p['kind'] in ('consumer-type', 'net-effect'):
+            head = f'{head}[{lab[0]}]'
         key = (p['generator'], p['kind'], head)
         grouped.setdefault(key, []).append(p)
     for (gname, kind, head), ps in sorted(grouped.items()):
@@ -583,7 +609,7 @@ def _detail_head(detail, kind=None):
                 'marker-without-flag', 'flag-changes-code',
                 'inconsistent-stack', 'arg-type', 'print-items',
                 'prompt-dependent-code', 'exit-target',
-                'comparison-common-type',
+                'comparison-common-type', 'restore-target-zero',
                 'valid-node-rejected', 'invalid-node-accepted'):
         return kind
     if kind == 'generator-raises':
